@@ -116,8 +116,12 @@ Definition starter (c:ascii) : bool := idstart c || digit c || Ascii.eqb c LP ||
 Definition bad (c:ascii) : bool := symc c && negb (pfirst c).
 Definition hd_is (P:ascii->bool) (s:text) : Prop := exists c r, s = c :: r /\ P c = true.
 
-Definition needs_paren (ctx:nat) (e:expr) : bool :=
+Variable np : nat -> expr -> bool.       (* parenthesisation policy of the printer *)
+Definition must_paren (ctx:nat) (e:expr) : bool :=
   match e with EB o _ _ => lb o <? ctx | EU u _ => lu u <? ctx | _ => false end.
+Definition needs_paren (ctx:nat) (e:expr) : bool :=
+  match e with EB _ _ _ | EU _ _ => np ctx e | _ => false end.
+Hypothesis np_sound : forall ctx e, must_paren ctx e = true -> np ctx e = true.
 
 Fixpoint render (ctx:nat) (e:expr) : text :=
   let b := match e with
@@ -387,10 +391,10 @@ Proof.
   - destruct (H_id_hd n Hwf) as (c & t & -> & H). exists c, (t ++ rest). split; [reflexivity|]. unfold starter. rewrite H. reflexivity.
   - destruct (H_num_hd k) as (c & t & -> & H). exists c, (t ++ rest). split; [reflexivity|]. unfold starter. rewrite H, orb_true_r. reflexivity.
   - destruct Hwf as [Hn _]. destruct (H_id_hd n Hn) as (c & t & -> & H). eexists c, _. split; [reflexivity|]. unfold starter. rewrite H. reflexivity.
-  - destruct (lb o <? ctx).
+  - destruct (np ctx (EB o l r)).
     + eexists LP, _. split; [reflexivity|]. unfold starter. rewrite Ascii.eqb_refl, !orb_true_r. reflexivity.
     + rewrite <- app_assoc. apply IHl. tauto.
-  - destruct (lu u <? ctx).
+  - destruct (np ctx (EU u x)).
     + eexists LP, _. split; [reflexivity|]. unfold starter. rewrite Ascii.eqb_refl, !orb_true_r. reflexivity.
     + destruct (HPsym _ _ _ (in_ptab u)) as (c & t & E & H). rewrite E. eexists c, _. split; [reflexivity|].
       unfold starter. replace (pfirst c) with true; [rewrite !orb_true_r; reflexivity|]. symmetry.
@@ -473,11 +477,14 @@ Proof.
       { destruct Hok' as [H|[H|(o2 & r2 & H1 & H2 & H3)]]; [left|right;left|right;right]; auto. exists o2, r2. repeat split; auto; lia. }
       apply IHr; [exact Hr | lia | exact Hok2 |]. apply L_stop, stop_none.
       destruct Hok' as [H|[H|(o2 & r2 & H1 & H2 & H3)]]; [left|right;left|right;right]; auto. exists o2, r2. repeat split; auto; lia. }
-    cbn [render needs_paren]. destruct (Nat.ltb_spec (lb o) ctx) as [Hlt|Hge].
+    cbn [render needs_paren]. destruct (np ctx (EB o l r)) eqn:Enp.
     + eapply PAREN; [| apply render_starter, Hl | | exact HL].
       * intros rest' res' Hok' HL'. apply (NP 0 0); auto; lia.
       * intros rest'. rewrite <- app_assoc. apply render_starter, Hl.
     + apply (NP ctx minp); auto.
+      destruct (Nat.ltb_spec (lb o) ctx) as [Hlt|Hge]; [|exact Hge].
+      assert (must_paren ctx (EB o l r) = true) by (cbn; apply Nat.ltb_lt; exact Hlt).
+      rewrite np_sound in Enp by assumption. discriminate.
   - (* unary *)
     assert (NP : forall ctx' minp' rest' res', ctx' <= lu u -> rest_ok ctx' rest' ->
                LoopR minp' (EU u x) rest' res' -> Parses minp' ((tu u ++ render (S (lu u)) x) ++ rest') res').
@@ -490,7 +497,7 @@ Proof.
       { destruct Hok' as [H|[H|(o2 & r2 & H1 & H2 & H3)]]; [left|right;left|right;right]; auto. exists o2, r2. repeat split; auto; lia. }
       apply IHx; [exact Hwf | lia | exact Hok2 |]. apply L_stop, stop_none.
       destruct Hok' as [H|[H|(o2 & r2 & H1 & H2 & H3)]]; [left|right;left|right;right]; auto. exists o2, r2. repeat split; auto; lia. }
-    cbn [render needs_paren]. destruct (Nat.ltb_spec (lu u) ctx) as [Hlt|Hge].
+    cbn [render needs_paren]. destruct (np ctx (EU u x)) eqn:Enp.
     + eapply PAREN; [| | | exact HL].
       * intros rest' res' Hok' HL'. apply (NP 0); auto; lia.
       * destruct (HPsym _ _ _ (in_ptab u)) as (c & t & E & H). rewrite E. eexists c, _. split; [reflexivity|].
@@ -501,6 +508,9 @@ Proof.
         unfold starter. replace (pfirst c) with true; [rewrite !orb_true_r; reflexivity|]. symmetry.
         unfold pfirst. apply existsb_exists. exists (lu u, tu u, u). split; [apply in_ptab|]. cbn. rewrite E. apply Ascii.eqb_refl.
     + apply (NP ctx minp); auto.
+      destruct (Nat.ltb_spec (lu u) ctx) as [Hlt|Hge]; [|exact Hge].
+      assert (must_paren ctx (EU u x) = true) by (cbn; apply Nat.ltb_lt; exact Hlt).
+      rewrite np_sound in Enp by assumption. discriminate.
 Qed.
 
 Corollary roundtrip e : wf e -> exists n, forall f, n <= f -> climb f 0 (render 0 e) = Some (e, []).
